@@ -9,6 +9,49 @@ FAMILY = dict(send_units=3,
 KIND = {0: "54", 1: "55", 2: "56"}
 
 
+def decode_variants(valid, rnd):
+    """C02: the same exchange with one reply that came in a single datagram re-sent as a bzip2-compressed Source split
+    (SPEC: Transport.sourceSplitBz — bit 31 of the id set, size and CRC-32 in fragment 0, 1-4 fragments at random cut
+    points).  The stream is compressed here with Python's bz2 (the real bzip2-rs decodes it in the harness); the model
+    gets the pair as its oracle table entry (`bz=<compressed>:<reply>`).  Expected response and requests unchanged."""
+    import bz2, zlib, copy
+    c = valid.case()
+    if valid.notwf or not c.args[1].startswith("S:") or c.args[1] == "S:240" or not c.script or c.script[0] == "X":
+        return []
+    seg = valid.seg()
+    ch = [int(x) for x in valid.tags["CH"].split(",")]
+    ds = c.script[0]
+    starts = [0, seg[0], seg[0] + seg[1]]
+    singles = [k for k in range(3) if seg[k] - ch[k] == 1 and seg[k] > 0
+               and ds[starts[k] + ch[k]] is not None and ds[starts[k] + ch[k]][:4] == b"\xff\xff\xff\xff"]
+    if not singles:
+        return []
+    k = rnd.choice(singles)
+    at = starts[k] + ch[k]
+    packet = ds[at]
+    z = bz2.compress(packet, rnd.choice([1, 9]))
+    n = rnd.choice([1, 2, 2, 3, 4])
+    cuts = sorted(rnd.randrange(0, len(z) + 1) for _ in range(n - 1))
+    chunks = [z[a:b] for a, b in zip([0] + cuts, cuts + [len(z)])]
+    sid = rnd.getrandbits(31) | 0x80000000
+    frags = []
+    for i, chunk in enumerate(chunks):
+        head = b"\xfe\xff\xff\xff" + sid.to_bytes(4, "little") + bytes([n, i]) + (1248).to_bytes(2, "little")
+        if i == 0:
+            head += len(packet).to_bytes(4, "little") + (zlib.crc32(packet) & 0xFFFFFFFF).to_bytes(4, "little")
+        frags.append(head + chunk)
+    c.script[0] = ds[:at] + frags + ds[at + 1:]
+    c.opts = c.opts + [f"bz={z.hex()}:{packet.hex()}"]
+    v = copy.copy(valid)
+    v.tags = dict(valid.tags)
+    seg2 = list(seg)
+    seg2[k] += n - 1
+    v.tags["SEG"] = ",".join(str(x) for x in seg2)
+    v.id = valid.id + "z"
+    v.line = c.line(v.id)
+    return [v]
+
+
 def fragment_groups(case):
     """C08: [(conn, start, count)] of the split datagrams of one reply: consecutive datagrams with the split header
     and the same split id whose packet numbers keep rising (a new reply may reuse the id)"""
